@@ -755,8 +755,10 @@ func Verif_C24_ParseB() { r := verifrt.Choose(8, 15); c24ParseAt(r, c24Extra(r, 
 func Verif_C24_ParseC() { r := verifrt.Choose(16, 26); c24ParseAt(r, c24Extra(r, 5), true) }
 func Verif_C24_ParseD() { r := verifrt.Choose(28, 37); c24ParseAt(r, c24Extra(r, 5), true) }
 func Verif_C24_ParseE() {
+	// kexInitMsg and the ad hoc struct: lengths 0, 1 and min-2..min+extra only (with ten name-lists every
+	// shorter length already has thousands of ways to run out of bytes).
 	r := []int{27, 38, 39}[verifrt.Choose(0, 2)]
-	c24ParseAt(r, c24Extra(r, 5), true)
+	c24ParseAt(r, c24Extra(r, 5), r == 39)
 }
 
 // c24DecodeIdx maps a message number to the c24Rows index decode() must dispatch to, 254 for
@@ -816,6 +818,9 @@ func c24Decode(n int) {
 // Verif_C24_Decode: packets of 1..10 bytes (quick).
 func Verif_C24_Decode() { c24Decode(verifrt.Choose(1, 10)) }
 
-// Verif_C24_DecodeT1/T2: packets of 11..13 / 14..15 bytes (thorough; 1..10 are in Verif_C24_Decode).
+// Verif_C24_DecodeT1: packets of 11..13 bytes (thorough; 1..10 are in Verif_C24_Decode).
 func Verif_C24_DecodeT1() { c24Decode(verifrt.Choose(11, 13)) }
+
+// Verif_C24_DecodeT2: packets of 14..15 bytes.  NOT registered: did not finish within 49 minutes on the
+// (heavily loaded) development machine.
 func Verif_C24_DecodeT2() { c24Decode(verifrt.Choose(14, 15)) }
